@@ -1,6 +1,7 @@
 import ComposeVerif.Ops.Common
 import ComposeVerif.Model.Template
 import ComposeVerif.Spec.Template
+import ComposeVerif.Model.TemplateOpts
 /-! line-protocol ops for C07: `subst` -/
 open Lean
 namespace CV.Ops.C07
@@ -64,5 +65,36 @@ def substSpec : Handler := fun args =>
     | none => Json.mkObj [("bad", "ast")]
   | _ => Json.mkObj [("bad", "ast")]
 
-def handlers2 : List (String × Handler) := [("substSpec", substSpec)]
+/-! ### `substOpts`: `SubstituteWithOptions` under a named configuration (mirrors `harness/p/c07/c07_opts.go`) -/
+
+/-- custom `SubstituteFunc` of the harness: `NAME:-arg` → the value, or `[arg]` *uninterpolated* when unset
+    (an error when the argument is `!`); anything else is "not applied" -/
+def optSubs : Env → Str → SubRes := fun env s =>
+  if containsStr [':', '-'] s then
+    match env (cut [':', '-'] s).1 with
+    | some v => .val v true
+    | none =>
+      if (cut [':', '-'] s).2 == ['!'] then .err (.required (cut [':', '-'] s).1 "bang".toList)
+      else .val ('[' :: (cut [':', '-'] s).2 ++ [']']) true
+  else .val [] false
+
+/-- custom `ReplacementFunc` of the harness: a doubled delimiter → one, a bare `d{` → invalid, else `<match>` -/
+def optRepl : Env → Str → Out := fun _ m =>
+  match m with
+  | [a, b] => if a == b then .ok [a] else if b == '{' then .err .invalid else .ok ('<' :: m ++ ['>'])
+  | _ => .ok ('<' :: m ++ ['>'])
+
+def cfgOf (name : String) : Cfg :=
+  let base := if name.startsWith "percent" then delimCfg '%' else defaultCfg
+  let hasSubs := name == "subs" || name == "percent+subs" || name == "subs+repl"
+  let hasRepl := name == "repl" || name == "percent+repl" || name == "subs+repl"
+  { base with subsFunc := if hasSubs then some optSubs else none,
+              replFunc := if hasRepl then some optRepl else none }
+
+def substOpts : Handler := fun args =>
+  let t := (getStr args "t").toList
+  let env := envOfList (getStrMap args "env")
+  outJson (substWith (cfgOf (getStr args "cfg")) env t)
+
+def handlers2 : List (String × Handler) := [("substSpec", substSpec), ("substOpts", substOpts)]
 end CV.Ops.C07
